@@ -107,3 +107,70 @@ Theorem suba_refl_pf : forall w p t,
   table_ok w = true -> plain_closed t = true -> arity_ok w t = true -> SubA w p t t.
 Proof. exact suba_refl_pf_lem. Qed.
 Print Assumptions suba_refl_pf.
+
+(* paths only name captures: false for arbitrary tables, true for table_ok (more generally
+   whenever the table and the two types contain no wildcard and no captured type) *)
+Theorem suba_path_irrelevant_pf_refuted :
+  exists w p q s t, plain_closed s = true /\ plain_closed t = true /\ SubA w p s t /\ ~ SubA w q s t.
+Proof. exact suba_path_irrelevant_pf_refuted_lem. Qed.
+Print Assumptions suba_path_irrelevant_pf_refuted.
+
+Theorem suba_path_irrelevant_pf_partial : forall w p q s t,
+  table_ok w = true -> plain_closed s = true -> plain_closed t = true ->
+  SubA w p s t -> SubA w q s t.
+Proof. exact suba_path_irrelevant_pf_lem. Qed.
+Print Assumptions suba_path_irrelevant_pf_partial.
+
+Theorem suba_path_irrelevant_nowild : forall w p q s t,
+  nwc_table w = true -> nwc s = true -> nwc t = true -> SubA w p s t -> SubA w q s t.
+Proof. exact suba_path_irrelevant_nwc_lem. Qed.
+Print Assumptions suba_path_irrelevant_nowild.
+
+(* transitivity, for types without primitive built-ins (see suba_trans_pf_refuted) *)
+Theorem suba_trans_pf_partial : forall w p a b c,
+  table_ok w = true -> plain_closed a = true -> plain_closed b = true -> plain_closed c = true ->
+  arity_ok w a = true -> arity_ok w b = true -> arity_ok w c = true ->
+  boxed a = true -> boxed b = true -> boxed c = true ->
+  SubA w p a b -> SubA w p b c -> SubA w p a c.
+Proof. exact suba_trans_pf_lem. Qed.
+Print Assumptions suba_trans_pf_partial.
+
+(* definite answers of the model are exact on the boxed projection-free fragment *)
+Theorem is_subtype_exact_pf : forall w fuel s t,
+  table_ok w = true -> plain_closed s = true -> plain_closed t = true ->
+  arity_ok w s = true -> arity_ok w t = true -> boxed s = true -> boxed t = true ->
+  is_subtype w fuel s t <> Rerr ->
+  (is_subtype w fuel s t = Rt <-> SubA w [] s t).
+Proof. exact is_subtype_exact_pf_lem. Qed.
+Print Assumptions is_subtype_exact_pf.
+
+Theorem is_subtype_refl_pf : forall w f t, plain_closed t = true -> is_subtype w (S f) t t = Rt.
+Proof. exact is_subtype_refl_pf_lem. Qed.
+Print Assumptions is_subtype_refl_pf.
+
+Theorem is_subtype_trans_pf : forall w f1 f2 f3 a b c,
+  table_ok w = true -> plain_closed a = true -> plain_closed b = true -> plain_closed c = true ->
+  arity_ok w a = true -> arity_ok w b = true -> arity_ok w c = true ->
+  boxed a = true -> boxed b = true -> boxed c = true ->
+  is_subtype w f1 a b = Rt -> is_subtype w f2 b c = Rt -> is_subtype w f3 a c <> Rerr ->
+  is_subtype w f3 a c = Rt.
+Proof. exact is_subtype_trans_pf_lem. Qed.
+Print Assumptions is_subtype_trans_pf.
+
+Theorem is_subtype_rf_stable : forall w f1 f2 s t,
+  table_ok w = true -> plain_closed s = true -> plain_closed t = true ->
+  arity_ok w s = true -> arity_ok w t = true -> boxed s = true -> boxed t = true ->
+  is_subtype w f1 s t = Rf -> is_subtype w f2 s t <> Rt.
+Proof. exact is_subtype_rf_stable_lem. Qed.
+Print Assumptions is_subtype_rf_stable.
+
+(* non-vacuity: Leaf<in T> : Mid<Sink<T>>, Mid<out T> : Src<T>;  Leaf<Number> <: Src<Sink<Int>> *)
+Theorem is_subtype_pf_nonvacuous :
+  table_ok ex_world = true /\
+  plain_closed ex_s = true /\ plain_closed ex_t = true /\
+  arity_ok ex_world ex_s = true /\ arity_ok ex_world ex_t = true /\
+  boxed ex_s = true /\ boxed ex_t = true /\
+  is_subtype ex_world 40 ex_s ex_t = Rt /\ is_subtype ex_world 40 ex_t ex_s = Rf /\
+  is_subtype ex_world 40 ex_s (TApp 1 [TApp 2 [TBuiltin 1 false]]) = Rf.
+Proof. exact SubtypePF.is_subtype_pf_nonvacuous. Qed.
+Print Assumptions is_subtype_pf_nonvacuous.
